@@ -91,7 +91,10 @@ unsigned long Str__find_first_not_of_d(const Str *s, const Str *set, unsigned lo
 #endif
 /* TextTools::count(s, pattern): std::search based; at most one match per start position (size() + 1 with an empty pattern) */
 #ifdef VERIF_MODE_BOUNDED
-static inline unsigned long TextTools__count(const Str *s, const Str *pattern) { unsigned long r = nondet_ulong(); __CPROVER_assume(r <= s->n + 1); return r; }
+/* executable: one match per start position (std::search restarted at it + 1, so matches may overlap); an empty pattern is left unspecified */
+static inline unsigned long TextTools__count(const Str *s, const Str *pattern) { if (pattern->n == 0) { unsigned long r = nondet_ulong(); __CPROVER_assume(r <= s->n + 1); return r; }
+  if (pattern->n == 1) { unsigned long c1 = 0; for (unsigned long i = 0; i < STR_BCAP; ++i) { if (i < s->n && s->d[i] == pattern->d[0]) c1++; } return c1; }
+  unsigned long c = 0; for (unsigned long i = 0; i < STR_BCAP; ++i) { if (i + pattern->n <= s->n) { _Bool m = 1; for (unsigned long k = 0; k < STR_BCAP; ++k) { if (k < pattern->n && s->d[i + k] != pattern->d[k]) m = 0; } if (m) c++; } } return c; }
 #else
 unsigned long TextTools__count(const Str *s, const Str *pattern) __CPROVER_requires(1) __CPROVER_ensures(__CPROVER_return_value <= s->n + 1) __CPROVER_assigns();
 #endif
